@@ -203,6 +203,22 @@ def run_formula(name, text, env, acc, do_consequence):
                               f'{base_val[1]!r} to {v2!r}')
                 break
 
+    # ---- a cell beyond the used area that F6 itself read: writing it must reach F6 (an edge "through a containing
+    # range" does not exist for it -- the node of a whole column / row holds the used area only)
+    for x in (grid[-3:] if isinstance(base_val[1], (int, float)) and not isinstance(base_val[1], bool) else []):
+        if not any(addr == x and formula.endswith('F6') for formula, addr in reads if isinstance(formula, str)) and \
+                not any(addr == x for formula, addr in reads):
+            continue
+        try:
+            m.set_value(x, 987.5)
+            after = ('ok', m.evaluate('S!F6'))
+        except Exception as exc:
+            after = ('exc', type(exc).__name__)
+        acc.add('evaluations')
+        if after[0] == 'ok' and W.veq(after[1], base_val[1]):
+            acc.violation(dict(case, verdict='write-to-read-cell-has-no-effect', cell=x, observed=jsonable(after), expected=None),
+                          f'={text}: F6 read {x} (beyond the used area), but after set_value({x}, 987.5) it still evaluates to {after[1]!r}')
+
 
 # ---------------------------------------------------------------- part 2: graph invariant along histories
 class PG:
